@@ -10,9 +10,17 @@ from harness import common
 from harness.common import Result
 
 PROP = 'C04'
-LEAN_TARGETS = ['TxV.Props.C04']
-PROP_MODULES = ['TxV.Props.C04']
+LEAN_TARGETS = ['TxV.Props.C04', 'TxV.Props.SourceTie']
+PROP_MODULES = ['TxV.Props.C04', 'TxV.Props.SourceTie']
 AUDIT = 'Audit/C04.lean'
+
+
+def extract():
+    # the state words, event map and bootstrap queries of the source, for the tie lemmas in Props/SourceTie.lean
+    from harness import extract as _x
+    return _x.state_table()
+
+
 ANCHORS = ['txtorcon/torcontrolprotocol.py', 'txtorcon/util.py']
 RULE = ('advertised method lists: every ordered subset of {SAFECOOKIE, COOKIE, HASHEDPASSWORD, NULL} plus an unknown method and the missing '
         'AUTH line (65+ lists) x cookie conditions {no COOKIEFILE, unreadable (a directory), 0/31/33/32 bytes, 32 bytes ending in LF / CRLF or wrapped in blanks, 32 bytes followed or preceded by LF / CRLF / a blank (33-34 bytes); paths with space, quote, '
